@@ -420,8 +420,16 @@ class Interp:
             v = self.ev(e.operand)
             if isinstance(e.op, ast.Not):
                 return not self.truth(v)
-            if isinstance(e.op, ast.USub) and isinstance(v, int):
-                return -v
+            if isinstance(v, (int, float, complex)) and not isinstance(v, (Obj, Opaque, Sym)):
+                try:
+                    if isinstance(e.op, ast.USub):
+                        return -v
+                    if isinstance(e.op, ast.UAdd):
+                        return +v
+                    if isinstance(e.op, ast.Invert):
+                        return ~v  # type: ignore[operator]
+                except TypeError:
+                    raise PyRaise("TypeError", None)
             raise Unsupported(e)
         if isinstance(e, ast.BoolOp):
             if isinstance(e.op, ast.And):
@@ -548,6 +556,19 @@ class Interp:
             except Exception as ex:  # e.g. an unhashable model value looked up in a dict
                 raise PyRaise(type(ex).__name__, None)
             return res if isinstance(op, ast.In) else not res
+        if isinstance(a, tuple) and isinstance(b, tuple) and all(isinstance(x, (int, str)) and not isinstance(x, bool) for x in tuple(a) + tuple(b)):
+            # version tuples (sys.version_info against a literal)
+            try:
+                if isinstance(op, ast.LtE):
+                    return tuple(a) <= tuple(b)
+                if isinstance(op, ast.Lt):
+                    return tuple(a) < tuple(b)
+                if isinstance(op, ast.GtE):
+                    return tuple(a) >= tuple(b)
+                if isinstance(op, ast.Gt):
+                    return tuple(a) > tuple(b)
+            except TypeError:
+                raise PyRaise("TypeError", None)
         if isinstance(a, (set, frozenset)) and isinstance(b, (set, frozenset)):
             if isinstance(op, ast.LtE):
                 return a <= b
@@ -691,6 +712,25 @@ class Interp:
                 if isinstance(v, (Opaque, Sym)):
                     raise Unsupported(e, "(type() of a model object)")
                 return type(v)
+            if nm == "getattr" and len(e.args) in (2, 3) and nm not in self.env and self.globals.get("__native_getattr__"):
+                o = self.ev(e.args[0])
+                a = self.ev(e.args[1])
+                if isinstance(a, str) and not isinstance(o, (Opaque, Sym)):
+                    if isinstance(o, Obj):
+                        if a in o._attrs:
+                            return o._attrs[a]
+                        if len(e.args) == 3:
+                            return self.ev(e.args[2])
+                        raise PyRaise("AttributeError", a)
+                    try:
+                        return getattr(o, a)
+                    except AttributeError:
+                        if len(e.args) == 3:
+                            return self.ev(e.args[2])
+                        raise PyRaise("AttributeError", a)
+                    except Exception as ex:  # a property / __getattr__ of the runtime object raised
+                        raise PyRaise(type(ex).__name__, None)
+                raise Unsupported(e, "(getattr on an abstract value)")
             if nm == "hasattr" and len(e.args) == 2 and nm not in self.env:
                 o = self.ev(e.args[0])
                 a = self.ev(e.args[1])
@@ -796,6 +836,8 @@ class Interp:
                     raise PyRaise("IndexError", None)
             if isinstance(recv, (set, frozenset)) and meth in ("union", "intersection", "difference", "issubset", "issuperset", "isdisjoint") and all(isinstance(a, (set, frozenset, dict, list, tuple)) for a in args):
                 return getattr(recv, meth)(*[set(a) for a in args])
+            if recv is type and meth in ("mro", "__subclasses__") and len(args) == 1 and isinstance(args[0], type):
+                return list(getattr(type, meth)(args[0]))
             if recv is ast and meth == "parse" and args and isinstance(args[0], str):
                 try:
                     return ast.parse(*args, **{k.arg: self.ev(k.value) for k in e.keywords if k.arg})
